@@ -275,11 +275,9 @@ def gen_env_history(rng, maxlen, multi=False):
             old, cur = cur, order[k]
             qs.append(f"reset_new {k + 1}")
             if cfg in (None, "all"):
-                # finding C04-env-allist-survives-reset: the list 1..n materialised by solve_x() for the OLD size stays
-                # in the object; a caller has to say min_x() again after handing over a system of another size
-                if cur["n"] != old["n"]:
-                    qs.append("min_x_all")
-                    cfg = "all"
+                # the default configuration rides across reset(data of another size): the list 1..n that solve_x()
+                # materialised for the OLD size is dropped by reset (repo 65eea33; finding C04-env-allist-survives-reset)
+                pass
             elif not cf._valid_for(cur, cfg):
                 cs = subsets(cur)
                 cfg = rng.choice(cs) if cs else "all"
@@ -332,6 +330,12 @@ def gen_env_history(rng, maxlen, multi=False):
 
 def run_env_state(ctx, corr, exe, n, maxlen):
     gens = [gen_env_history(ctx.rng, maxlen, multi=(k % 2 == 1)) for k in range(n)]
+    # regression inputs of fixed findings (corpus/C04/env-*.ops: stream format incl. envinfo/state/fresh lines)
+    for f in sorted((ctx.verif / "corpus" / "C04").glob("env-*.ops")):
+        ls = [l for l in f.read_text().splitlines() if l.strip() and not l.startswith(("#", "case "))]
+        k0 = ls.index("new env solver")
+        qs_ = [l for l in ls[k0 + 3:] if l not in ("state", "envinfo") and not l.startswith("fresh ")]
+        gens.append(({"n": 0, "m": 0, "defect": 1, "_all": [{"n": -1}] * 9, "corpus": f.name}, ls[:k0 + 3], qs_, ls[k0 + 3:]))
     cases = [ops + lines for (_, ops, _, lines) in gens]
     impl, crashes = run_cases(exe, cases, timeout=1800)
     # second phase: hand the implementation's envinfo facts to the model (one per `envinfo` line, in order)
@@ -357,6 +361,18 @@ def run_env_state(ctx, corr, exe, n, maxlen):
         rn = [int(q.split()[1]) - 1 for q in qs if q.startswith("reset_new")]
         corr.count("env_reset_new", len(rn))
         corr.count("env_reset_new_same_size", sum(1 for k in rn if p["_all"][k]["n"] == p["n"]))
+        # default configuration ("all") carried across a reset to another size: the fixed finding's pattern
+        cfg_, size_, cnt_ = "d", p["n"], 0
+        for q in qs:
+            if q.startswith("min_x_all"):
+                cfg_ = "d"
+            elif q.startswith("min_x "):
+                cfg_ = "l"
+            elif q.startswith("reset_new"):
+                n2 = p["_all"][int(q.split()[1]) - 1]["n"]
+                cnt_ += 1 if (cfg_ == "d" and n2 != size_ and n2 >= 0) else 0
+                size_ = n2
+        corr.count("env_default_cfg_across_other_size", cnt_)
         if i in crashes:
             corr.fail("history crashes AdjEnvelope (sanitizer / abort)", {"stream": "envstate", "ops": cases[i]},
                       "env/solver", crashes[i][1])
